@@ -2,6 +2,7 @@ package faultp
 
 import (
 	"bytes"
+	"crypto/sha256"
 	"encoding/json"
 	"fmt"
 	"os"
@@ -293,6 +294,17 @@ func judge(f Fault, o runOut, path string, create bool, op dbx.Op, preBytes []by
 			return h.V("failed-call-leaves-served-state-unchanged", "the call reported %q, but the running process now serves\n    %s\n  pre-call state\n    %s", r.Err, mem, preR)
 		}
 		return h.V("result-equals-model", "the call reported success, the process serves %s, model says %s", mem, postR)
+	}
+	if r.Class != "ok" {
+		// the file on disk right after the failed call (before the retry rewrites it)
+		onDisk, _ := stdoutField(o.Stdout, "FILE")
+		want := "absent"
+		if !create {
+			want = fmt.Sprintf("%x", sha256.Sum256(preBytes))
+		}
+		if onDisk != want {
+			return h.V("failed-call-leaves-file-unchanged", "the call reported %q, but the file on disk is no longer the pre-call file (now: %s, before: %s)", r.Err, onDisk, want)
+		}
 	}
 	if !strings.Contains(retry, `"class":"ok"`) {
 		return h.V("later-calls-succeed-normally", "after the call reported %q (%s), the next mutating call failed: %s", r.Err, r.Class, retry)
